@@ -1286,6 +1286,15 @@ func (r *run) subtrees(n *node, out *[]sub) {
 // checkEqual: C17 invariants over pairs of live subtrees.
 func (r *run) checkEqual() {
 	s := r.s
+	// Capabilities are equal by identity, and a promise that is still pending is, as documented
+	// for Client.IsSame, not yet the capability it will resolve to: the model gives both the same
+	// identity, so the promises are fulfilled before anything is compared.
+	if len(r.pending) > 0 {
+		r.fulfilPending()
+		if r.failed() {
+			return
+		}
+	}
 	var subs []sub
 	for _, n := range r.nodes {
 		r.subtrees(n, &subs)
